@@ -764,6 +764,12 @@ func formatIntegerComponent(n int, marker *variableMarker) (string, error) {
 		return "", err
 	}
 
+	// A number that is shorter than the minimum width is
+	// padded with leading zeros.
+	if padding := marker.minWidth - utf8.RuneCountInString(s); padding > 0 && isAllDigits(s) {
+		s = strings.Repeat("0", padding) + s
+	}
+
 	switch marker.modifier {
 	case modOrdinal:
 		s += ordinalSuffix(n)
